@@ -76,9 +76,13 @@ def run(run):
         cfg = {"N": N, "k": k, "frozen_zeros": fz == 0, "interleave": il, "user_mask": um is not None}
         try:
             kw = dict(frozen_zeros=(fz == 0), polar_i=il)
+            mask_buf = None
             if um is not None:
-                kw.update(load_rank=False, info_indices=torch.tensor(um, dtype=torch.bool))
+                mask_buf = torch.tensor(um, dtype=torch.bool)
+                kw.update(load_rank=False, info_indices=mask_buf)
             enc = quiet(PolarCodeEncoder, k, N, **kw)
+            if mask_buf is not None:
+                mask_buf.logical_not_()        # the caller reuses its mask buffer afterwards: the encoder keeps the set it was constructed with
         except Exception as ex:
             run.violate("PolarCodeEncoder", "construction_raised", cfg, {"error": repr(ex)[:200]})
             continue
